@@ -69,11 +69,12 @@ package wal
 //@ modifies nothing
 
 //@ func readWriteSegment.Truncate
-//@ property C09
+//@ property C09 C10
 //@ requires rwInv(ms)
 //@ assume separate(ms.txnMappedFile, ms.writingIdx) because "the index buffer (heap or pool) and the mmap region of the segment file are distinct allocations"
 //@ loop 0 invariant fileEndOffset <= i
 //@ loop 0 invariant forall k int :: 0 <= k && k < fileEndOffset ==> ms.txnMappedFile[k] == old(ms.txnMappedFile[k])
+//@ loop 0 invariant forall k int :: fileEndOffset <= k && k < i ==> ms.txnMappedFile[k] == 0
 //@ loop 0 modifies elems(ms.txnMappedFile)
 //@ loop 0 decreases ms.currentFileOffset - i
 //@ ensures (lastSafeOffset < old(ms.c.baseOffset) || lastSafeOffset > old(ms.lastOffset)) ==> errIs(result, codec.ErrOffsetOutOfBounds) && ms.lastOffset == old(ms.lastOffset) && ms.currentFileOffset == old(ms.currentFileOffset)
@@ -81,6 +82,7 @@ package wal
 //@ ensures result == nil ==> ms.currentFileOffset == old(be32(ms.writingIdx, 4*(lastSafeOffset-ms.c.baseOffset))) + ms.c.codec.GetHeaderSize() + old(be32(ms.txnMappedFile, be32(ms.writingIdx, 4*(lastSafeOffset-ms.c.baseOffset))))
 //@ ensures result == nil ==> forall j int :: 0 <= j && j <= lastSafeOffset - ms.c.baseOffset ==> be32(ms.writingIdx, 4*j) == old(be32(ms.writingIdx, 4*j))
 //@ ensures result == nil ==> forall k int :: 0 <= k && k < ms.currentFileOffset ==> ms.txnMappedFile[k] == old(ms.txnMappedFile[k])
+//@ ensures result == nil ==> forall k int :: ms.currentFileOffset <= k && k < old(ms.currentFileOffset) ==> ms.txnMappedFile[k] == 0
 //@ modifies ms.currentFileOffset, ms.lastOffset, ms.writingIdx, elems(ms.txnMappedFile)
 
 //@ func readWriteSegment.Flush
@@ -279,7 +281,7 @@ package wal
 // and only to the offset that had been appended when the flush was started.
 //
 //@ func wal.runSync
-//@ property C09 C03
+//@ property C09 C03 C10
 //@ requires t.ctx != nil && t.currentSegment != nil && t.syncLatency != nil && t.writeErrors != nil
 //@ callback * pure
 //@ assume received func(error): v != nil because "doSync is the only sender on syncRequests and is only given non-nil callbacks (Sync, AppendAndSync)"
